@@ -1448,7 +1448,15 @@ func ParseDSAPrivateKey(der []byte) (*dsa.PrivateKey, error) {
 	if len(rest) > 0 {
 		return nil, errors.New("ssh: garbage after DSA key")
 	}
-	if k.P.Sign() <= 0 || k.Priv.Sign() <= 0 || k.Priv.Cmp(k.Q) >= 0 ||
+	one := big.NewInt(1)
+	// (P, Q, G) must be a DSA group: Q a prime dividing P-1 and G of order Q.
+	if k.P.Sign() <= 0 || k.Q.Sign() <= 0 || !k.Q.ProbablyPrime(20) ||
+		new(big.Int).Mod(new(big.Int).Sub(k.P, one), k.Q).Sign() != 0 ||
+		k.G.Cmp(one) <= 0 || k.G.Cmp(k.P) >= 0 ||
+		new(big.Int).Exp(k.G, k.Q, k.P).Cmp(one) != 0 {
+		return nil, errors.New("ssh: invalid DSA parameters")
+	}
+	if k.Priv.Sign() <= 0 || k.Priv.Cmp(k.Q) >= 0 ||
 		new(big.Int).Exp(k.G, k.Priv, k.P).Cmp(k.Pub) != 0 {
 		return nil, errors.New("ssh: public key does not match private key")
 	}
